@@ -66,7 +66,8 @@ func H_ParseBytes() {
 	}
 	rtReach("accepted")
 	rtAssert("validates", expr.Validate(e) == nil)
-	totalityChecks(e, strings.Contains(in, "%!"))
+	rtAssert("shape", shapeOK(e))
+	totalityChecks(e, hasMarkerChars(in))
 	rtReach("end")
 }
 
@@ -90,6 +91,57 @@ func H_ParseTokens() {
 	}
 	rtReach("accepted")
 	rtAssert("validates", expr.Validate(e) == nil)
-	totalityChecks(e, strings.Contains(in, "%!"))
+	rtAssert("shape", shapeOK(e))
+	totalityChecks(e, hasMarkerChars(in))
 	rtReach("end")
+}
+
+var contexts = []string{
+	"f:[# TO 5]", "f:[1 TO #]", "f:{# TO #}", "f:(#)", "(#)", "(#) AND v", "v AND (#)",
+	"NOT #", "f:#", "f:>#", "v #", "# v", "#~2", "#^2", "f:[# TO *]", "-#", "+#", "f:>=#", "v OR #",
+}
+
+func init() { register("ParseCtx", H_ParseCtx) }
+
+// ctxInput fills every hole of the context with S shape slots.
+func ctxInput(ctx string, s int) string {
+	var buf []byte
+	for i := 0; i < len(ctx); i++ {
+		if ctx[i] != '#' {
+			buf = append(buf, ctx[i])
+			continue
+		}
+		for j := 0; j < s; j++ {
+			c := rtChoose("shape", len(narrowShapes))
+			if j > 0 {
+				buf = append(buf, ' ')
+			}
+			buf = shapeBytes(buf, narrowShapes[c])
+		}
+	}
+	return string(buf)
+}
+
+// H_ParseCtx (C01, C10): free token slots inside fixed bracket/operator contexts.
+func H_ParseCtx() {
+	ctx := contexts[rtParam("CTX")]
+	rtTag("ctx=" + ctx)
+	in := ctxInput(ctx, rtParam("S"))
+	e, err := parseOpt(in, rtParam("DF"))
+	rtAssert("parse-xor", (e != nil) != (err != nil))
+	if err != nil || e == nil {
+		rtReach("rejected")
+		return
+	}
+	rtReach("accepted")
+	rtAssert("validates", expr.Validate(e) == nil)
+	rtAssert("shape", shapeOK(e))
+	totalityChecks(e, hasMarkerChars(in))
+	rtReach("end")
+}
+
+// hasMarkerChars: the input itself can spell "%!" (possibly through escapes); such inputs are
+// exempt from the no-marker assertions, which are about markers produced by fmt.
+func hasMarkerChars(in string) bool {
+	return strings.Contains(in, "%") && strings.Contains(in, "!")
 }
